@@ -414,8 +414,21 @@ pub fn run_c14(a: &Args, rep: &mut Report) {
     let n = ((if a.tier == "quick" { 1_600_000.0 } else { 100_000_000.0 }) * a.scale) as u64 / a.nshards;
     for k in 0..n {
         let (name, kind, _) = &table[(k as usize + rng.below(5) as usize) % table.len()];
-        let mode = rng.below(10);
+        let mode = rng.below(11);
         let (text, class): (String, &str) = match mode {
+            10 => {
+                // long identifiers / operands made of multi-byte alphanumerics (1-4 bytes each)
+                let alpha = ['a', 'Z', '9', 'é', 'ß', 'λ', 'я', '٣', '日', '字', '𝟘', '𝔸', 'ǅ', 'ⅷ'];
+                let n = rng.range(1, 90) as usize;
+                let ident: String = (0..n).map(|_| *rng.pick(&alpha)).collect();
+                let s = match rng.below(4) {
+                    0 => ident,
+                    1 => format!("{ident} r1, 2"),
+                    2 => format!("add r1, {ident}"),
+                    _ => format!("{} {ident}", name),
+                };
+                (s, "unicode-identifier")
+            }
             0..=3 => {
                 // valid shape with hostile numerals in some operand positions
                 let ops = gen_ops(&mut rng, *kind);
@@ -1112,6 +1125,10 @@ pub fn corpus_text(rng: &mut Rng, table: &[(String, AsmKind, u8)]) -> String {
                 s.push_str(&l.chars().take(cut).collect::<String>());
             }
             3 => s.push_str(&format!("{}q r1, 2", name)),
+            4 if li > 0 => {
+                // a stray line between instructions: comment-like text or a lone symbol
+                s.push_str(*rng.pick(&["# comment", "^", "; x", "// y", ".", "@", "!", "#"]));
+            }
             _ => {
                 let ops = gen_ops(rng, *kind);
                 s.push_str(&render(rng, name, &ops, Some(*kind)));
